@@ -495,7 +495,10 @@ class PrintVisitor(base_visitor.Visitor):
     ):
       decorators += "@classmethod\n"
     elif node.kind == pytd.MethodKind.PROPERTY:
-      decorators += "@property\n"
+      # The stub reader keeps the `property` decorator on the function it builds,
+      # so don't print it a second time (the reader rejects two of them).
+      if "@property" not in decorators.split("\n"):
+        decorators += "@property\n"
     if node.is_abstract:
       decorators += "@abstractmethod\n"
     if node.is_coroutine:
